@@ -105,7 +105,7 @@ PROPS = {
     "C19": dict(BANKVM, lean=["Shentu.Props.C19", "Shentu.Props.C19H"], engines=[chain("bankvm", 160, 1600, ops=100), chain("payout", 48, 480, ops=120, tops=200), EXPORT],
                 assumptions=BANKVM["assumptions"] + ["the one path outside the bank and cvm modules that touches the lock — a shield claim paid out of the stake of an account with locked coins — is exercised by the engine 'payout' on providers turned into ManualVestingAccounts in a discarded cache context (an account with locked coins may delegate them and deposit collateral)"]),
     "C11": dict(GOV, lean=["Shentu.Props.C11", "Shentu.Props.C11H", "Shentu.Props.ShieldTie"]),
-    "C12": dict(GOV, lean=["Shentu.Props.C12"], engines=GOV["engines"] + [chain("shield", 48, 480, ops=160)],
+    "C12": dict(GOV, lean=["Shentu.Props.C12", "Shentu.Props.C12T"], engines=GOV["engines"] + [chain("shield", 48, 480, ops=160)],
                 assumptions=["governance parameters are constant along a history", "shield-claim proposals (certifier round, then the certified identities' stake round) are exercised by the shield engine; their tally is restated independently by the monitor stake_round_rule with the certified identities' bonded stake as the quorum base"]),
     "C13": dict(GOV, lean=["Shentu.Props.C13", "Shentu.Props.C13H"]),
     "C15": {
